@@ -13,6 +13,8 @@ implementation did (`Facts` = what chrono told the code about `current` and abou
     record is written; the new schedule is strictly after that arrival; the random delay is in
     `[0, max)`;
   * nothing panics.
+A boundary beyond the last instant chrono can represent (absurd multiplier) cannot be answered by
+any `DateTime`; there the statement is read as "never roll": an instant at or after `FAR` (`reach`).
 Local times are "local seconds" (UTC seconds + offset); the calendar itself (which local second
 starts a month) is chrono's and enters through the civil fields of the result.
 -/
@@ -60,6 +62,11 @@ structure Facts where
   offRes : Option Int
   chg : Option Bool
   rciv : Option CivilTime
+  /-- month/year: the civil date the repaired code resolves, and chrono's naive seconds of it -/
+  tgtCivil : Option CivilTime := none
+  tgtLocal : Option Int := none
+  /-- `Local.from_local_datetime` at the target local time and the 15-minute steps after it -/
+  tbl : List (Int × LocalResult) := []
 
 /-- UTC seconds (floor) of `current` -/
 def Facts.now (f : Facts) : Int := f.lnow - f.offNow
@@ -68,20 +75,41 @@ inductive Clause where
   | panics | notAfterNow | offBoundary
   deriving DecidableEq, Repr
 
+/-- Can the boundary the statement names be an instant of chrono's time line at all?
+`exact`: yes, it must be hit. `never`: it lies beyond the last representable instant (absurd
+multiplier); all an implementation can do is never roll, i.e. answer an instant at or after `FAR`.
+`either`: within two days of the end of the time line, where local and UTC range checks differ. -/
+inductive Reach where
+  | exact | never | either
+  deriving DecidableEq, Repr
+
+def reach (f : Facts) (u : IUnit) (n : Int) (modulate : Bool) : Reach :=
+  if isCalendarUnit u then
+    if expectedMonthIndex f.civ u n modulate / 12 > 262142 then .never else .exact
+  else
+    let expUtc := expectedLocal f.civ f.lnow u n modulate - f.offNow
+    if expUtc > DT_MAX + 172800 then .never
+    else if expUtc > DT_MAX - 172800 then .either
+    else .exact
+
 /-- the first clause of the statement that the observed result violates, if any -/
 def checkNext (f : Facts) (u : IUnit) (n : Int) (modulate : Bool) (result : Option Int) : Option Clause :=
   match result with
   | none => some .panics
   | some r =>
     if r ≤ f.now then some .notAfterNow
-    else if f.chg = some false then
-      if isCalendarUnit u then
-        if f.rciv = some (civilOfMonthIndex (expectedMonthIndex f.civ u n modulate)) then none else some .offBoundary
-      else
-        match f.offRes with
-        | some o => if r + o = expectedLocal f.civ f.lnow u n modulate then none else some .offBoundary
-        | none => some .offBoundary
-    else none
+    else match reach f u n modulate with
+    | .either => none
+    | .never => if r ≥ FAR then none else some .offBoundary
+    | .exact =>
+      if f.chg = some false then
+        if isCalendarUnit u then
+          if f.rciv = some (civilOfMonthIndex (expectedMonthIndex f.civ u n modulate)) then none else some .offBoundary
+        else
+          match f.offRes with
+          | some o => if r + o = expectedLocal f.civ f.lnow u n modulate then none else some .offBoundary
+          | none => some .offBoundary
+      else none
 
 /-- one consultation of the trigger as observed: fired? and the schedule afterwards, or a panic -/
 abbrev TrigObs := Option (Bool × Int)
